@@ -437,27 +437,48 @@ def check_result_order(chk, fi: FuncInfo) -> None:
 # ---------------------------------------------------------------------------------------------------------------------
 # ordering keys of Residue / Residue3D (sibling agreement)
 # ---------------------------------------------------------------------------------------------------------------------
-def order_key(fi: FuncInfo) -> Optional[List[Tuple[str, str]]]:
-    """[(field, text of the component with self.<field> written as <field>)] of `return (k1, k2, ...) < (same of other)`."""
-    rets = [r for r in astq.walk_no_nested(fi.node) if isinstance(r, ast.Return)]
-    if len(rets) != 1:
-        return None
-    v = rets[0].value
-    if not (isinstance(v, ast.Compare) and len(v.ops) == 1 and isinstance(v.ops[0], (ast.Lt, ast.Gt)) and isinstance(v.left, ast.Tuple) and isinstance(v.comparators[0], ast.Tuple) and len(v.left.elts) == len(v.comparators[0].elts)):
-        return None
+def order_keys(fi: FuncInfo) -> Optional[List[Tuple[List[Tuple[str, bool]], List[str]]]]:
+    """For every path of an ordering method: (decisions of the path, key components with self.<f> / other.<f> written as X.<f>)
+    of its `return key(self) < key(other)` (or the mirrored `key(other) > key(self)`); a bare `a < b` is a key of one component.
+    None when a path returns something else."""
     params = [a.arg for a in fi.node.args.args]
     if len(params) != 2:
         return None
     me, other = params
-    mine, theirs = (v.left, v.comparators[0]) if isinstance(v.ops[0], ast.Lt) else (v.comparators[0], v.left)  # key(other) > key(self)
+    try:
+        paths = SX.run(fi.node.body)
+    except SX.TooManyPaths:
+        return None
     out = []
-    for a, b in zip(mine.elts, theirs.elts):
-        ta = norm(c03e._rename(a, me, "X"))
-        tb = norm(c03e._rename(b, other, "X"))
-        if ta != tb:
+    for p in paths:
+        if p.exit == "raise":
+            continue
+        v = p.ret if p.exit == "return" else None
+        if isinstance(v, ast.Name) and v.id == "NotImplemented":
+            continue
+        if not (isinstance(v, ast.Compare) and len(v.ops) == 1 and isinstance(v.ops[0], (ast.Lt, ast.Gt))):
             return None
-        out.append(ta)
-    return out
+        mine, theirs = (v.left, v.comparators[0]) if isinstance(v.ops[0], ast.Lt) else (v.comparators[0], v.left)
+        ma = list(mine.elts) if isinstance(mine, ast.Tuple) else [mine]
+        ta = list(theirs.elts) if isinstance(theirs, ast.Tuple) else [theirs]
+        if len(ma) != len(ta):
+            return None
+        key = []
+        for a, b in zip(ma, ta):
+            xa = norm(c03e._rename(a, me, "X"))
+            xb = norm(c03e._rename(b, other, "X"))
+            if xa != xb:
+                return None
+            key.append(xa)
+        out.append((p.describe(), key))
+    return out or None
+
+
+def order_key(fi: FuncInfo) -> Optional[List[str]]:
+    ks = order_keys(fi)
+    if ks is None or len({tuple(k) for _, k in ks}) != 1:
+        return None
+    return ks[0][1]
 
 
 def check_order_keys(chk, rule: str = "order-keys") -> None:
@@ -468,10 +489,20 @@ def check_order_keys(chk, rule: str = "order-keys") -> None:
     f2 = repo.func(CM, "Residue.__lt__")
     chk.note_function(f3)
     chk.note_function(f2)
-    k3, k2 = order_key(f3), order_key(f2)
-    if k3 is None or k2 is None:
-        chk.error(rule, (f3 if k3 is None else f2).where, "ordering is not `return (key of self) < (same key of other)`")
+    ks3, ks2 = order_keys(f3), order_keys(f2)
+    if ks3 is None or ks2 is None:
+        chk.error(rule, (f3 if ks3 is None else f2).where, "ordering is not `return (key of self) < (same key of other)` on every path")
         return
+    for who, f, ks in (("Residue3D", f3, ks3), ("Residue", f2, ks2)):
+        distinct = sorted({tuple(k) for _, k in ks})
+        if len(distinct) > 1:
+            # one method, several orders: which one applies depends on the data of the two objects (e.g. whether both carry label ids)
+            main = [list(k) for k in distinct if [x.replace("X.", "").split(" or ")[0] for x in k][-3:] == ["chain", "number", "icode"]]
+            odd = next((list(k) for k in distinct if list(k) not in main), list(distinct[0]))
+            when = next((d for d, k in ks if k == odd), [])
+            chk.violation(rule, f.where, f"{who}.__lt__ compares {[t.replace('X.', '') for t in odd]} on one path (decisions {when[:3]}) and {[t.replace('X.', '') for t in (main[0] if main else distinct[-1])]} on another: residues are ordered by two different keys depending on their data, while the twin class orders by (chain, number, insertion code) only - orientation (`lower residue first`), sorting and the emitted Residue objects no longer agree", K(f, "order-paths"), expected=["chain", "number", "icode"], found=[list(k) for k in distinct])
+            return
+    k3, k2 = ks3[0][1], ks2[0][1]
 
     def field_of(t: str) -> Optional[str]:
         """the identity field a key component stands for: X.f  or  X.f or <constant>"""
@@ -504,3 +535,84 @@ def check_order_keys(chk, rule: str = "order-keys") -> None:
     )
     fields = [field_of(t) for t in k2]
     chk.expect(fields == ["chain", "number", "icode"], rule, f2.where, "residues are ordered by (chain, number, insertion code)", f"Residue.__lt__ orders by {fields}, not by (chain, number, icode)", K(f2, "order-fields"), found=fields)
+
+
+# ---------------------------------------------------------------------------------------------------------------------
+# emission of BasePhosphate / BaseRibose objects
+# ---------------------------------------------------------------------------------------------------------------------
+def with_local_helpers_inlined(fi: FuncInfo) -> FuncInfo:
+    """A copy of the function in which calls of its own nested single-purpose helpers (`def as_residue(r): return Residue(...)`)
+    are replaced by their bodies, so that the emitted objects are read in the same form as before the extraction."""
+    from sa.inline import inline_in_function
+
+    helpers = {n.name: n for n in fi.node.body if isinstance(n, ast.FunctionDef) and not n.decorator_list}
+    if not helpers:
+        return fi
+    node = copy.deepcopy(fi.node)
+    helpers = {n.name: n for n in node.body if isinstance(n, ast.FunctionDef) and not n.decorator_list}
+    try:
+        inline_in_function(node, helpers, None, [])
+    except Exception:
+        return fi
+    return FuncInfo(fi.module, fi.qualname, node, fi.cls)
+
+
+def constructed(fi: FuncInfo, ctor: str) -> List[Tuple[ast.Call, ast.expr, ast.AST]]:
+    """[(constructor call with its arguments written over the elements of the collection it is built from, that collection,
+    site)] for every place that builds `ctor(...)` objects in a loop with one append or in a comprehension."""
+    out = []
+    for n in ast.walk(fi.node):
+        if isinstance(n, ast.ListComp) and isinstance(n.elt, ast.Call) and astq.callee_name(n.elt) == ctor:
+            st = SX._State()
+            ex = SX.Executor()
+            ok = True
+            first_iter = None
+            for k, g in enumerate(n.generators):
+                if g.ifs:
+                    ok = False
+                it = ex.sub(g.iter, st)
+                if first_iter is None:
+                    first_iter = it
+                ex._serial = k + 1
+                ex._bind_loop_target(g.target, it, st)
+            if ok:
+                out.append((ex.sub(n.elt, st), first_iter, n))
+        elif isinstance(n, ast.For) and any(isinstance(c, ast.Call) and astq.callee_name(c) == ctor for c in ast.walk(n)) and not any(n is not m and isinstance(m, ast.For) and any(x is n for x in ast.walk(m)) for m in ast.walk(fi.node)):
+            ex = SX.Executor()
+            st = SX._State()
+            it = ex.sub(n.iter, st)
+            ex._serial = 1
+            ex._serials[id(n)] = 1
+            ex._bind_loop_target(n.target, it, st)
+            paths = ex.run(n.body, st.store)
+            for p in paths:
+                for e in p.effects:
+                    if e.method == "append" and e.args and isinstance(e.args[0], ast.Call) and astq.callee_name(e.args[0]) == ctor and not e.guards and not p.conds:
+                        out.append((e.args[0], it, e.node))
+    return out
+
+
+def check_bph_emission(chk, fi: FuncInfo, mp: str, cls_name: str, en: str) -> None:
+    fi2 = with_local_helpers_inlined(fi)
+    cons = constructed(fi2, cls_name)
+    if len(cons) != 1:
+        chk.violation("bph-emission", fi.where, f"{cls_name} objects are built at {len(cons)} unconditional place(s) (loop with one append / comprehension), expected one", K(fi, f"{mp}-emission"))
+        return
+    call, it, site = cons[0]
+    src_ok = norm(it) == f"{mp}.items()"
+    E = None
+    for x in ast.walk(call):
+        r = SX.is_elem(x)
+        if r is not None and norm(r) == norm(it):
+            E = norm(x)
+            break
+    ok = False
+    got = [norm(a)[:80] for a in call.args]
+    if E is not None and len(call.args) == 3 and not call.keywords:
+        a, b = f"{E}[0][0]", f"{E}[0][1]"
+        want01 = [f"Residue({a}.label, {a}.auth)", f"Residue({b}.label, {b}.auth)"]
+        m = astq.match(call.args[2], f"{en}[X_]")
+        parts = str_parts(m["X_"]) if m else None
+        cls_ok = parts is not None and len(parts) == 2 and parts[0] == "'_'" and SX.is_elem(ast.parse(parts[1], mode="eval").body) is not None and norm(SX.is_elem(ast.parse(parts[1], mode="eval").body)) == f"{E}[1]"
+        ok = [norm(x) for x in call.args[:2]] == want01 and cls_ok
+    chk.expect(ok and src_ok, "bph-emission", fi.site(site), f"every (pair, class) of {mp} becomes {cls_name}(Residue(donor), Residue(acceptor), {en}[_class]) (read over the elements of {mp}.items())", f"{cls_name} objects are not built as (Residue(donor), Residue(acceptor), {en}[f'_{{class}}']) from every (pair, class) of {mp}: built from `{norm(it)[:50]}` as {got}", K(fi, f"{mp}-emission"), found=got)
